@@ -15,4 +15,50 @@ TEXT = {
         "note": "Trusts google.golang.org/protobuf for the message codec and runtime.MemStats.TotalAlloc (GC off, one goroutine) as allocation measure.",
         "technique": "runtime monitoring: round-trip and allocation oracle over exhaustive/small and random/large chunkings and hostile streams",
     },
+    "C01": {
+        "text": "Exploration: real secret stores of all three group types seal payloads of 0..64 KiB; a monitor opens every honest envelope on every receiver and every manipulated one "
+                "(every single-bit flip of small envelopes, seeded flips of large ones, field substitutions re-boxed under the group secret, cross-group presentation, insider forgeries by a "
+                "member that knows the chain key) on a copy of the receiver's state, and applies the oracle 'rejected, or same payload/sender/counter'. A thorough-tier unit repeats opens from 8 goroutines under the race detector.",
+        "note": "Cryptographic strength is not proved: the claim is behaviour under the catalogued manipulations. The CID given to the store is the content hash of the envelope bytes.",
+        "technique": "runtime monitoring: reject-or-equal oracle over exhaustive bit flips, field substitutions and insider forgeries on real secret stores (+ race detector run)",
+    },
+    "C02": {
+        "text": "Exploration, exhaustive for small bounds: every operation sequence (opens of each sealed message, registration, re-registration of the same/older announcement) up to depth 5-7 for windows 1..4 "
+                "is executed on real receiver stores (state copied at every tree node) and judged step by step by an executable window model; seeded random histories cover the default window of 100 with up to 300 messages and 1-3 interleaved senders with retries.",
+        "note": "Outside the sufficient bound of the statement either outcome is accepted; without a CID a failing re-open is accepted (documented by the repository's own tests).",
+        "technique": "runtime monitoring: executable reference model (ratchet window) checked online against exhaustive small and random large arrival histories",
+    },
+    "C05": {
+        "text": "Exploration: for every group type and announcement point the real GetShareableChainKey/RegisterChainKey are driven with the intended recipient (each device), wrong recipients, every other group of the recipient, wrong claimed senders, "
+                "every single-bit flip/truncation/extension of the announcement; the monitor checks exact chain key and counter, that exactly the later messages open, and that refusals leave no chain key and open nothing. "
+                "The completeness half (every device ends up holding every other device's chain key) is monitored on activated group contexts of 2-4 members exchanging metadata by seeded delivery plans until a logical fixpoint.",
+        "note": "Completeness is restated as bounded progress: judged at the fixpoint where all replicas hold all entries and handlers are idle; not an unbounded 'eventually'.",
+        "technique": "runtime monitoring: accept/refuse oracle over an exhaustive manipulation catalogue + state matrix (IsChainKeyKnownForDevice) at logical quiescence",
+    },
+    "C09": {
+        "text": "Exploration of schedules: N x M concurrent SealEnvelope calls (N up to 16) on one and several groups of each type with seeded delays/yields injected around every datastore access, a concurrent opener on the same store, under the Go race detector; "
+                "monitors record call/return events with one logical clock and every chain-key put; oracles: counters distinct and gap-free, history linearizable as fetch-and-increment (direct check and porcupine), every envelope opens to its payload, "
+                "message keys injective, stored counter monotone at every put, no race report in pkg/secretstore.",
+        "note": "Schedules are sampled (real parallelism + injected delays), not enumerated; a race report in the anchored files is treated as a violation witness.",
+        "technique": "runtime monitoring: race detector + recorded client-boundary history checked by porcupine and a monotonicity hook on the datastore",
+    },
+    "C10": {
+        "text": "Fault enumeration: scripted and seeded random workloads are recorded fault-free on a logging datastore; every mutation (put, delete, atomic batch commit) of each recording is then taken as a crash point: "
+                "the prefix state is rebuilt, a new secret store restarted on it, and the acknowledged-effects oracle evaluated (opened stays openable, openable stays openable, no counter reuse after restart, same keys, workload continues without panic).",
+        "note": "Crash = loss of all mutations after the point, no torn single put, batches atomic (as the property states for badger). Workloads are sampled; crash points are complete per workload.",
+        "technique": "fault injection by exhaustive crash-point enumeration over recorded mutation logs with an acknowledged-effects oracle",
+    },
+    "C11": {
+        "text": "Exploration: thousands of random account pairs derive contact groups on both sides (cached, recomputed, after restart, on an imported sibling device, in varying order of first use) with a collision census over identifiers and secrets; "
+                "random multi-member groups check member/device key derivation across devices and restarts; export/import reproduction; a catalogue of refused imports (used store after each kind of first use, RSA/Secp256k1/ECDSA, truncated/garbage/equal keys).",
+        "note": "Independence is observed as absence of collisions over the sample, not proved. Swapped blobs are outside the statement.",
+        "technique": "runtime monitoring: symmetry/independence/refusal oracle over random key material on real secret stores",
+    },
+    "C14": {
+        "text": "Exploration: sessions mixing push and log delivery of the same messages in all six delivery orders, several senders and groups, key and reference windows of 2/5/100; an executable model (C02 window + reference window around the last message seen) "
+                "decides which push opens are demanded and what AlreadyReceived must be; bit flips of push payloads (exhaustive in thorough) and unknown/foreign references must be rejected; the log path must still open what push opened and vice versa. "
+                "A second unit drives OutOfStoreSeal/OutOfStoreReceive of the service and the standalone out-of-store service.",
+        "note": "Before any message of a sender was seen, a reference is demanded only inside both candidate windows (announcement counter / end of key window).",
+        "technique": "runtime monitoring: executable reference-window model checked online against random mixed push/log histories",
+    },
 }
